@@ -226,6 +226,18 @@ pub fn smoke_child(cfg_json_str: &str) -> i32 {
             return 2;
         }
     };
+    // schedule dimension: tree-loader worker threads selected by the mask leave late (see `sched_cases`)
+    if let Some(mask) = std::env::var("VERIF_LOADER_EXIT_MASK").ok().and_then(|m| m.parse::<usize>().ok()) {
+        static HITS: std::sync::atomic::AtomicUsize = std::sync::atomic::AtomicUsize::new(0);
+        rustic_core::verif::point::set(Some(std::sync::Arc::new(move |label| {
+            if label == "tree_loader.exit" {
+                let k = HITS.fetch_add(1, std::sync::atomic::Ordering::SeqCst) % 4;
+                if mask >> k & 1 == 1 {
+                    std::thread::sleep(Duration::from_millis(300));
+                }
+            }
+        })));
+    }
     let r = catch_unwind(AssertUnwindSafe(|| -> Result<(), String> {
         let env = Env::single();
         let t = smoke_source(cfg.compression.is_some_and(|c| c >= 20));
@@ -262,8 +274,19 @@ pub fn smoke_child(cfg_json_str: &str) -> i32 {
 }
 
 fn smoke(cfg: &ConfigFile) -> Result<(), (String, String)> {
+    smoke_masked(cfg, None)
+}
+
+/// `mask`: bit k set = the k-th (mod 4) tree-loader worker thread to finish stays alive 300 ms longer
+fn smoke_masked(cfg: &ConfigFile, mask: Option<usize>) -> Result<(), (String, String)> {
     let exe = std::env::current_exe().expect("exe");
-    let mut child = Command::new(exe)
+    let mut cmd = Command::new(exe);
+    if let Some(m) = mask {
+        _ = cmd.env("VERIF_LOADER_EXIT_MASK", m.to_string());
+    } else {
+        _ = cmd.env_remove("VERIF_LOADER_EXIT_MASK");
+    }
+    let mut child = cmd
         .arg("c18-smoke")
         .arg(serde_json::to_string(cfg).unwrap())
         .env("RUST_BACKTRACE", "0")
@@ -389,10 +412,40 @@ fn prune_limits(rep: &mut Report, args: &Args) {
     }
 }
 
+/// Worker-exit schedules: the four tree-loader threads of `check`/`prune` are detached; every subset of
+/// them may still be alive when the command goes on. All 16 subsets, on each base configuration.
+fn sched_cases(rep: &mut Report, args: &Args) {
+    let mut i = 0usize;
+    for (bname, base) in base_configs() {
+        for mask in 0..16usize {
+            i += 1;
+            if !args.mine(i) {
+                continue;
+            }
+            if args.quick() && bname != base_configs()[0].0 && mask != 15 {
+                continue;
+            }
+            rep.inc("cases");
+            rep.inc("sched_cases");
+            let mut cfg = base.clone();
+            cfg.append_only = None;
+            match smoke_masked(&cfg, Some(mask)) {
+                Ok(()) => rep.inc("sched_ok"),
+                Err((sig, msg)) => {
+                    let sig = format!("C18/sched/{}/tree-loader-exits-late", sig.trim_start_matches("C18/smoke/"));
+                    if !rep.has_violation(&sig) {
+                        rep.violation(sig, format!("base {bname}, late-exit mask {mask:04b}: {msg}"), json!({"part": "sched", "config": cfg_json(&cfg), "mask": mask}));
+                    }
+                }
+            }
+        }
+    }
+}
+
 pub fn run(args: &Args, rep: &mut Report) {
     std::panic::set_hook(Box::new(|_| {}));
     let thorough = !args.quick();
-    rep.set_meta("rule", json!("ConfigOptions values: every field with {0, 1, interior, u32::MAX, u64::MAX} (sizes), {0,1,50,99,100,101,u32::MAX} (factors/percents), versions {0,1,2,3,u32::MAX}, compression incl. both ends of the zstd range +-1; full products of chunker x chunk_size x min x max, pack size x growfactor x limit per blob type, version x compression, min% x max%. Each applied to three initial configurations through apply_config on a real repository and through init; every distinct accepted configuration gets a smoke run (backup of files of length 0,1,63,64,65,5000,70000 + zeros, check --read-data, independent and API restore comparison, prune_plan) in a child process with a 180 s watchdog; prune with every pair of 10 limit values. Non-trivial = distinct accepted resulting configurations"));
+    rep.set_meta("rule", json!("ConfigOptions values: every field with {0, 1, interior, u32::MAX, u64::MAX} (sizes), {0,1,50,99,100,101,u32::MAX} (factors/percents), versions {0,1,2,3,u32::MAX}, compression incl. both ends of the zstd range +-1; full products of chunker x chunk_size x min x max, pack size x growfactor x limit per blob type, version x compression, min% x max%. Each applied to three initial configurations through apply_config on a real repository and through init; every distinct accepted configuration gets a smoke run (backup of files of length 0,1,63,64,65,5000,70000 + zeros, check --read-data, independent and API restore comparison, prune_plan) in a child process with a 180 s watchdog; prune with every pair of 10 limit values; the smoke run of each base configuration under every subset of the 4 detached tree-loader threads leaving 300 ms late. Non-trivial = distinct accepted resulting configurations"));
     if let Some(p) = &args.replay {
         let v: Value = serde_json::from_str(&std::fs::read_to_string(p).unwrap()).unwrap();
         let c = &v["case"];
@@ -402,6 +455,13 @@ pub fn run(args: &Args, rep: &mut Report) {
                 let cfg: ConfigFile = serde_json::from_value(c["config"].clone()).unwrap();
                 if let Err((sig, msg)) = smoke(&cfg) {
                     rep.violation(format!("{sig}/{}", smoke_signature_detail(&cfg)), msg, c.clone());
+                }
+            }
+            Some("sched") => {
+                let cfg: ConfigFile = serde_json::from_value(c["config"].clone()).unwrap();
+                let mask = c["mask"].as_u64().unwrap_or(15) as usize;
+                if let Err((sig, msg)) = smoke_masked(&cfg, Some(mask)) {
+                    rep.violation(format!("C18/sched/{}/tree-loader-exits-late", sig.trim_start_matches("C18/smoke/")), msg, c.clone());
                 }
             }
             Some("prune") => {
@@ -508,4 +568,5 @@ pub fn run(args: &Args, rep: &mut Report) {
         }
     }
     prune_limits(rep, args);
+    sched_cases(rep, args);
 }
